@@ -54,6 +54,9 @@ type wrapper struct {
 func (w *wrapper) Invoke(ctx context.Context, method string, args any, reply any, opts ...grpc.CallOption) error {
 	matched, ok := w.methods[method]
 	if !ok {
+		if _, isStream := w.streams[method]; isStream {
+			return ErrMethodShape // a streaming method called as a unary one
+		}
 		return ErrMethodNotFound
 	}
 
@@ -61,9 +64,11 @@ func (w *wrapper) Invoke(ctx context.Context, method string, args any, reply any
 		return err // as on a real connection, a call on a finished context is never started
 	}
 
-	ctx, clientServerStream, ss, cs := w.startStream(ctx, method)
+	_, clientServerStream, ss, cs := w.startStream(ctx, method)
 	go func() {
-		res, err := matched.Handler(w.srv, ctx, func(dst any) error {
+		// the handler works under the context of the call, which ends with the call (as over a connection),
+		// not under the caller's, which may never end
+		res, err := matched.Handler(w.srv, ss.Context(), func(dst any) error {
 			return ss.RecvMsg(dst)
 		}, nil)
 		if err != nil {
